@@ -19,7 +19,8 @@ ID = "C20"
 LEVEL = "exploration"
 RULE = ("random histories of {create instances, relate them (every write form), query with an explicit domain, query "
         "domain-less, rule query, match pattern, partially consumed iterator} followed by dropping all user references; "
-        "histories without any query are checked strictly (everything must die).  Each case also runs its history body "
+        "histories without any query are checked strictly (everything must die); a domain-less query that the program keeps "
+        "is evaluated, part of the instances is dropped, and it is evaluated again (the dropped ones are gone and reclaimed).  Each case also runs its history body "
         "k, 2k, 4k times and compares the sizes of every krrood-held container.  Non-trivial = the history creates and "
         "relates instances and (for the attribution path) evaluates at least one query; distinct = operation-kind "
         "sequence")
@@ -38,7 +39,8 @@ def plan(tier):
     return {"cases": 1500 if tier == "quick" else 20000, "shards": 16, "case_timeout": 120, "shard_timeout": 3000,
             "min_nontrivial": 60,
             "min_counters": {"instances_tracked": 3000, "strict_histories": 100, "query_histories": 200,
-                             "size_series_compared": 400, "containers_watched": 2000, "bookkeeping_audits": 400}}
+                             "size_series_compared": 400, "containers_watched": 2000, "bookkeeping_audits": 400,
+                             "long_lived_queries": 300}}
 
 
 def setup(ctx):
@@ -52,7 +54,7 @@ def gen(rng, tier, ctx):
     for _ in range(rng.randint(2, 10)):
         op = rng.choice(OPS if with_queries else OPS[:4])
         ops.append([op, rng.randrange(1000), rng.randrange(1000), rng.choice(["works_for", "member_of_append", "members_add", "sub_org_append", "part_of_append", "head_of", "members_assign"])])
-    return {"ops": ops, "k": rng.choice([2, 3, 4])}
+    return {"ops": ops, "k": rng.choice([2, 3, 4]), "longq": rng.choice([None, "entity", "cond", "setof"])}
 
 
 def witnesses():
@@ -115,6 +117,53 @@ def body(om, ops, census):
     for o in persons + orgs + chiefs:
         census.append(weakref.ref(o))
     return evaluated
+
+
+def long_lived_query(om, spec, C):
+    from krrood.entity_query_language.entity import entity, let, set_of
+    from krrood.entity_query_language.quantify_entity import an
+    from krrood.entity_query_language.symbol_graph import SymbolGraph
+    from vlib import holders
+    holders.clear_known_holders()
+    SymbolGraph().clear()
+    SymbolGraph()
+    gc.collect()
+    n = 3 + spec["k"] * 2
+    form = spec["longq"]
+    x = let(om.Org, None, name="x")
+    q = an(entity(x)) if form == "entity" else an(entity(x, x.name != "nobody")) if form == "cond" else an(set_of([x, x.name]))
+    orgs = [om.Org(f"lq{i}") for i in range(n)]
+    first = list(q.evaluate())
+    del first
+    keep = orgs[: n // 2]
+    dropped = [weakref.ref(o) for o in orgs[n // 2:]]
+    dropped_names = {o.name for o in orgs[n // 2:]}
+    del orgs
+    gc.collect()
+    second = list(q.evaluate())
+    second_names = [(r.name if form != "setof" else r[x].name) for r in second]
+    del second
+    gc.collect()
+    C["long_lived_queries"] += 1
+    out = []
+    if set(second_names) & dropped_names:
+        out.append(f"a query kept by the program still returns {len(set(second_names) & dropped_names)} instances that the program dropped before this evaluation")
+    if sorted(second_names) != sorted(o.name for o in keep) and not out:
+        out.append(f"a query kept by the program returns {sorted(second_names)} instead of the kept instances {sorted(o.name for o in keep)}")
+    alive = sum(1 for r in dropped if r() is not None)
+    if alive:
+        out.append(f"{alive} of {len(dropped)} dropped instances are still alive after the kept query was evaluated again")
+    third = list(q.evaluate())
+    del third
+    sg = SymbolGraph()
+    try:
+        nodes = [w for w in sg._instance_graph.nodes() if not isinstance(w.instance, om.PropertyDescriptor)]
+        if len(nodes) != len(keep):
+            out.append(f"the graph keeps {len(nodes)} nodes for {len(keep)} live instances after the kept query was evaluated a third time")
+    except Exception as e:
+        C["long_lived_audit_skipped_internals_differ:" + type(e).__name__] += 1
+    del keep, q, x
+    return out
 
 
 def discover_containers():
@@ -313,7 +362,13 @@ def run(spec, ctx):
         else:
             problems.append(f"krrood-held containers grow although no query is evaluated: {raw[:3]}")
     holders.clear_known_holders()
-    shape = ",".join(op[0] + (":" + op[3] if op[0] == "relate" else "") for op in spec["ops"])
+    # ---- 4. a long-lived domain-less query that the program keeps and evaluates again after dropping instances:
+    #         what was dropped is not returned any more and is reclaimed
+    if spec.get("longq"):
+        lq_problems = long_lived_query(om, spec, C)
+        problems.extend(lq_problems)
+    holders.clear_known_holders()
+    shape = ",".join(op[0] + (":" + op[3] if op[0] == "relate" else "") for op in spec["ops"]) + ("|longq" if spec.get("longq") else "")
     if problems:
         unexplained = [p for p in problems if not p.startswith("[known]")]
         key = known if (known and not unexplained) else None
